@@ -89,7 +89,7 @@ def events(p, names=None):
 
 
 # ---------------------------------------------------------------------------------------------- breadth first
-def byline_rows(idx, nlines=3, scenario="plain"):
+def byline_rows(idx, nlines=3, scenario="plain", collect=False):
     """scenario: 'plain' (votes + stops, no signals, no exceptions), 'skipall' (member 0 may fire skip_all),
     'abort' (a consideration may raise; handler may re-raise)"""
     fi = idx.method("CsvPaths", "next_by_line")
@@ -159,13 +159,16 @@ def byline_rows(idx, nlines=3, scenario="plain"):
         "ErrorHandler": handler_ctor,
         "eh.handle_error": handle_error,
     }
+    for j in range(members):
+        handlers[f"res{j}.append"] = (lambda i, c, r, a, k, j=j: i.record_call("collected", (f"cp{j}", a[0].text if isinstance(a[0], Residual) else str(a[0]))))
     out = []
     for agree in (False, True):
         it = Interp(idx, types={"self": "CsvPaths"}, unknown_calls="residual", handlers=handlers, inline_all={"CsvPaths"},
                     domains={"self._stop_all": [False], "self._fail_all": [False]})
         store = {"cp0.stopped": False, "cp1.stopped": False, "cp0.advance_count": 0, "cp1.advance_count": 0,
                  "self._skip_all": False, "self._advance_all": 0}
-        args = {"pathsname": "P", "filename": "F", "collect": False, "if_all_agree": agree, "collect_when_not_matched": False}
+        args = {"pathsname": "P", "filename": "F", "collect": collect, "if_all_agree": agree, "collect_when_not_matched": False}
         for p in it.run_all(fi, args=args, store=store):
+            p.__dict__["collect"] = collect
             out.append((agree, p))
     return fi, out
